@@ -2,7 +2,7 @@
 
 use super::basic::{self, OpMix, ProgCfg};
 use super::{hash_of, Engine, Stats, Tier, WorkerEnv};
-use crate::blob::Blob;
+use crate::blob::{Algo, Blob};
 use crate::exec::{run_step, Ctx};
 use crate::gen::{SizeMix, WriteMix};
 use crate::model::Model;
@@ -13,7 +13,7 @@ pub struct C10;
 
 fn cfg(tier: Tier) -> ProgCfg {
     ProgCfg {
-        mix: OpMix { write: 12, remove: 5, remove_fully: 1, idx_insert: 2, idx_delete: 1, ..OpMix::NONE },
+        mix: OpMix { write: 12, remove: 5, remove_fully: 1, idx_insert: 2, idx_delete: 1, link_to: 2, damage_content: 2, remove_hash: 1, ..OpMix::NONE },
         wmix: WriteMix { bad_decls: false, meta: true, by_hash: false, rich_matching: false, interfere: false },
         sizes: SizeMix::Small,
         keys: (1, 12),
@@ -123,6 +123,43 @@ impl Engine for C10 {
             steps.push(Step { op: Op::Remove { key: 0 }, fl: Fl::Async });
             out.push(Program { keys, blobs, steps });
         }
+        // records of 80 KiB .. 800 KiB (metadata) before, after and between small ones
+        for (vi, raw_len) in [20_000usize, 70_000, 200_000].into_iter().enumerate() {
+            for shape in 0..4usize {
+                let keys = vec!["big-record".to_string(), "small-record".to_string()];
+                let blobs = vec![Blob::new(5, 1), Blob::new(9, 2)];
+                let big = |i: usize, fl: Fl| {
+                    let mut w = WriteSpec::simple(Some(0), i % 2);
+                    w.entry = WEntry::Opts;
+                    w.raw_metadata = Some(crate::gen::huge_raw_meta(raw_len + i, (vi + i) as u8));
+                    Step { op: Op::Write(w), fl }
+                };
+                let small = |k: usize, b: usize, fl: Fl| Step { op: Op::Write(WriteSpec::simple(Some(k), b)), fl };
+                let steps = match shape {
+                    0 => vec![small(1, 1, Fl::Sync), big(0, Fl::Sync)],
+                    1 => vec![small(0, 0, Fl::Async), big(1, Fl::Async), small(1, 1, Fl::Sync)],
+                    2 => vec![big(0, Fl::Async), small(0, 1, Fl::Sync), big(2, Fl::Sync)],
+                    _ => vec![big(0, Fl::Sync), Step { op: Op::Remove { key: 0 }, fl: Fl::Async }, big(3, Fl::Async), Step { op: Op::Remove { key: 0 }, fl: Fl::Sync }, big(4, Fl::Sync)],
+                };
+                out.push(Program { keys, blobs, steps });
+            }
+        }
+        // entries whose content has become unreadable in every way a content path can (the
+        // listing is about the index: it must still agree with lookups)
+        for (di, dmg) in [CDamage::SymlinkDangling, CDamage::Delete, CDamage::SymlinkToDir, CDamage::Empty, CDamage::SymlinkToBlob(1)].into_iter().enumerate() {
+            for linked in [false, true] {
+                let keys = vec!["content-gone".to_string(), "bystander".to_string()];
+                let blobs = vec![Blob::new(50, 1), Blob::new(9, 2)];
+                let a = AddrRef { algo: Algo::Sha256, blob: 0 };
+                let first = if linked {
+                    Step { op: Op::LinkTo(LinkSpec { key: Some(0), blob: 0, target: 0, relative: false, algo: Algo::Sha256, oneshot: di % 2 == 0, pre_reads: vec![], declare: Declare::Exact, integ: IntegDecl::None, dotdot_via_symlink: false, vectored_reads: false }), fl: if di % 2 == 0 { Fl::Sync } else { Fl::Async } }
+                } else {
+                    Step { op: Op::Write(WriteSpec::simple(Some(0), 0)), fl: Fl::Sync }
+                };
+                let steps = vec![Step { op: Op::Write(WriteSpec::simple(Some(1), 1)), fl: Fl::Async }, first, Step { op: Op::DamageContent { addr: a, dmg: dmg.clone() }, fl: Fl::Sync }];
+                out.push(Program { keys, blobs, steps });
+            }
+        }
         // records whose integrity text cannot address content (planted; no well-formed call
         // writes them): the listing must still agree with lookups, whatever both make of them
         let odd: Vec<Option<String>> = vec![
@@ -153,7 +190,7 @@ impl Engine for C10 {
         out
     }
     fn exhaustive_note(&self, _tier: Tier) -> String {
-        "fixed families (not exhaustive): n keys written, every 3rd removed, every 6th re-written, every 5th overwritten, listing judged at the end and after each phase; and planted records with unusable integrity text before / after / between good records, judged by listing-vs-lookup agreement only".into()
+        "fixed families (not exhaustive): records of 80..800 KiB before / after / between small ones; entries whose content was deleted or replaced by dangling links, directories, other data; n keys written, every 3rd removed, every 6th re-written, every 5th overwritten, listing judged at the end and after each phase; and planted records with unusable integrity text before / after / between good records, judged by listing-vs-lookup agreement only".into()
     }
     fn random_cases(&self, tier: Tier) -> u32 {
         tier.pick(1500, 30000)
